@@ -37,7 +37,7 @@ pub fn partition(rng: &mut Rng, order: &[usize], k: usize, enc: Enc) -> Vec<File
     let mut names: Vec<&str> = FILE_NAMES.to_vec();
     rng.shuffle(&mut names);
     let mut files: Vec<FileSpec> =
-        (0..k).map(|i| FileSpec { name: names[i].to_string(), decls: vec![], enc, raw: None }).collect();
+        (0..k).map(|i| FileSpec { name: names[i].to_string(), decls: vec![], enc, raw: None, via_symlink: false }).collect();
     for d in order {
         let f = rng.below(k);
         files[f].decls.push(*d);
@@ -47,7 +47,7 @@ pub fn partition(rng: &mut Rng, order: &[usize], k: usize, enc: Enc) -> Vec<File
         files.retain(|f| !f.decls.is_empty());
     }
     if files.is_empty() {
-        files.push(FileSpec { name: names[0].to_string(), decls: vec![], enc, raw: None });
+        files.push(FileSpec { name: names[0].to_string(), decls: vec![], enc, raw: None, via_symlink: false });
     }
     rng.shuffle(&mut files);
     files
@@ -116,7 +116,7 @@ fn canonical_variant(world: &World, role: &str) -> Variant {
     Variant {
         role: role.to_string(),
         entry: Entry::Check,
-        files: vec![FileSpec { name: "a.st".into(), decls: (0..world.decls.len()).collect(), enc: Enc::Utf8, raw: None }],
+        files: vec![FileSpec { name: "a.st".into(), decls: (0..world.decls.len()).collect(), enc: Enc::Utf8, raw: None, via_symlink: false }],
         extras: vec![],
         args: vec!["ws/a.st".into()],
         dir_seed: 0,
@@ -447,24 +447,24 @@ fn gen_c13_boundary(rng: &mut Rng, index: u64) -> WorldTrace {
             // check: n files with one syntax error each, plus one valid file
             for i in 0..n {
                 decls.push(pool::Decl { text: format!("FUNCTION_BLOCK Bad{i}\n  VAR\n    cnt : INT;\n  END_VAR\n  cnt := ;\nEND_FUNCTION_BLOCK\n"), kind: "fault".into(), name: format!("Bad{i}") });
-                files.push(FileSpec { name: format!("bad{i:03}.st"), decls: vec![i], enc: Enc::Utf8, raw: None });
+                files.push(FileSpec { name: format!("bad{i:03}.st"), decls: vec![i], enc: Enc::Utf8, raw: None, via_symlink: false });
             }
             decls.push(pool::Decl { text: "FUNCTION_BLOCK Good\n  VAR\n    cnt : INT;\n  END_VAR\n  cnt := 1;\nEND_FUNCTION_BLOCK\n".into(), kind: "fb".into(), name: "Good".into() });
-            files.push(FileSpec { name: "good.st".into(), decls: vec![n], enc: Enc::Utf8, raw: None });
+            files.push(FileSpec { name: "good.st".into(), decls: vec![n], enc: Enc::Utf8, raw: None, via_symlink: false });
             (Entry::Check, "dir")
         }
         1 => {
             // echo: n files that do not parse
             for i in 0..n {
                 decls.push(pool::Decl { text: format!("PROGRAM Bad{i}\n  VAR\n    cnt INT;\n  END_VAR\nEND_PROGRAM\n"), kind: "fault".into(), name: format!("Bad{i}") });
-                files.push(FileSpec { name: format!("bad{i:03}.st"), decls: vec![i], enc: Enc::Utf8, raw: None });
+                files.push(FileSpec { name: format!("bad{i:03}.st"), decls: vec![i], enc: Enc::Utf8, raw: None, via_symlink: false });
             }
             (Entry::Echo, "parts")
         }
         _ => {
             // tokenize: one file with n invalid characters
             decls.push(pool::Decl { text: format!("FUNCTION_BLOCK Lex\n  VAR\n    cnt : INT;\n  END_VAR\n  cnt := 1;\nEND_FUNCTION_BLOCK\n{}\n", "? ".repeat(n)), kind: "fault".into(), name: "Lex".into() });
-            files.push(FileSpec { name: "lex.st".into(), decls: vec![0], enc: Enc::Utf8, raw: None });
+            files.push(FileSpec { name: "lex.st".into(), decls: vec![0], enc: Enc::Utf8, raw: None, via_symlink: false });
             (Entry::Tokenize, "parts")
         }
     };
@@ -500,7 +500,7 @@ pub fn gen_c13(rng: &mut Rng, thorough: bool, run_index: u64) -> WorldTrace {
             }
             let idx = world.decls.len();
             world.decls.push(pool::Decl { text: format!("FUNCTION_BLOCK Fill{i}\n  VAR\n    k : INT;\n  END_VAR\n  k := {i};\nEND_FUNCTION_BLOCK\n"), kind: "filler".into(), name: format!("Fill{i}") });
-            files.push(FileSpec { name, decls: vec![idx], enc: Enc::Utf8, raw: None });
+            files.push(FileSpec { name, decls: vec![idx], enc: Enc::Utf8, raw: None, via_symlink: false });
         }
         rng.shuffle(&mut files);
     }
@@ -784,7 +784,10 @@ fn oracle_c13(t: &WorldTrace, obs: &[Obs], stats: &mut Stats) -> Vec<Violation> 
 // ---------------------------------------------------------------------------------------------
 // C14: encodings and corrupted storage
 
-const W1252_EXTRAS: &[&str] = &["Zähler", "Größe µ °C", "naïve façade", "£ € ¥", "Ÿ œ Š ž", "¿qué?", "×÷±", "c1 \u{81}\u{8d}\u{8f}\u{90}\u{9d} ctl"];
+const W1252_EXTRAS: &[&str] = &["Zähler", "Größe µ °C", "naïve façade", "£ € ¥", "Ÿ œ Š ž", "¿qué?", "×÷±", "c1 \u{81}\u{8d}\u{8f}\u{90}\u{9d} ctl",
+    // text that quotes mojibake: as Windows-1252 bytes it holds several accidental well-formed UTF-8
+    // pairs next to lone high bytes (a decoder must not guess from the majority)
+    "nicht Ã¤ Ã¶ Ã¼ ÃŸ sondern ä", "Â°C Â°F Â°K neben °", "Ã© Ã¨ Ãª Ã  é"];
 const UNICODE_EXTRAS: &[&str] = &["→ 日本語", "Ω ≈ ∑", "😀 emoji", "Привет", "ﬁ ligature", "\u{2028}sep"];
 
 /// Adds non-ASCII characters in comments and string literals.
@@ -893,7 +896,7 @@ pub fn gen_c14(rng: &mut Rng, thorough: bool, run_index: u64) -> WorldTrace {
         let position = (run_index / 256) as usize;
         let byte = (run_index % 256) as u8;
         let world = World { decls: vec![], fault: None };
-        let file = FileSpec { name: "sweep.st".into(), decls: vec![], enc: Enc::Utf8, raw: Some(sweep_bytes(position, byte)) };
+        let file = FileSpec { name: "sweep.st".into(), decls: vec![], enc: Enc::Utf8, raw: Some(sweep_bytes(position, byte)), via_symlink: false };
         let mut variants = vec![];
         for entry in [Entry::Check, Entry::Tokenize, Entry::ApiPush, Entry::Echo, Entry::LspTokens] {
             variants.push(Variant { role: "corrupt".into(), entry, files: vec![file.clone()], extras: vec![], args: vec!["ws/sweep.st".into()], dir_seed: 1, hash_seed: rng.next(), faults: vec![], unprivileged: false });
@@ -1170,11 +1173,11 @@ pub fn gen_c03(rng: &mut Rng, thorough: bool) -> WorldTrace {
         name_reuse = true;
     }
     let company: Vec<usize> = (0..world.decls.len()).filter(|d| !involved.contains(d)).collect();
-    let faulty_file = |name: &str| FileSpec { name: name.to_string(), decls: involved.clone(), enc: Enc::Utf8, raw: None };
+    let faulty_file = |name: &str| FileSpec { name: name.to_string(), decls: involved.clone(), enc: Enc::Utf8, raw: None, via_symlink: false };
     let mk = |role: &str, entry: Entry, files: Vec<FileSpec>, args: Vec<String>, rng: &mut Rng| Variant { role: role.into(), entry, files, extras: vec![], args, dir_seed: rng.next(), hash_seed: rng.next(), faults: vec![], unprivileged: false };
     let mut variants = vec![mk("alone", Entry::Check, vec![faulty_file("faulty.st")], vec!["ws/faulty.st".into()], rng)];
     // reference for "the company is valid": the accompanying declarations alone
-    let mut company_only = mk("company", Entry::Check, vec![FileSpec { name: "company.st".into(), decls: company.clone(), enc: Enc::Utf8, raw: None }], vec!["ws/company.st".into()], rng);
+    let mut company_only = mk("company", Entry::Check, vec![FileSpec { name: "company.st".into(), decls: company.clone(), enc: Enc::Utf8, raw: None, via_symlink: false }], vec!["ws/company.st".into()], rng);
     company_only.role = "nofault".into();
     variants.push(company_only);
     let nvar = if thorough { 12 } else { 6 };
@@ -1197,7 +1200,7 @@ pub fn gen_c03(rng: &mut Rng, thorough: bool) -> WorldTrace {
             let placed: Vec<usize> = files.iter().flat_map(|f| f.decls.clone()).collect();
             let missing: Vec<usize> = company.iter().copied().filter(|d| !placed.contains(d)).collect();
             if !missing.is_empty() {
-                files.push(FileSpec { name: "rest.st".into(), decls: missing, enc: Enc::Utf8, raw: None });
+                files.push(FileSpec { name: "rest.st".into(), decls: missing, enc: Enc::Utf8, raw: None, via_symlink: false });
             }
         } else {
             // faulty declarations placed among the others inside shared files
@@ -1359,6 +1362,7 @@ pub fn execute(t: &WorldTrace, stats: &mut Stats) -> RunReport {
                 run_index: 0,
                 label: format!("{} {}", v.role, world_kind(&t.world)),
                 files: v.files.iter().map(|f| (f.name.clone(), file_bytes(&t.world, f))).collect(),
+                symlinked: v.files.iter().filter(|f| f.via_symlink).map(|f| f.name.clone()).collect(),
                 extras: v.extras.clone(),
                 unprivileged: v.unprivileged,
                 cmd: cmd.to_string(),
@@ -1372,12 +1376,48 @@ pub fn execute(t: &WorldTrace, stats: &mut Stats) -> RunReport {
 }
 
 pub fn generate(prop: &str, rng: &mut Rng, thorough: bool, run_index: u64) -> WorldTrace {
-    match prop {
+    let mut t = match prop {
         "C06" => gen_c06(rng, thorough),
         "C13" => gen_c13(rng, thorough, run_index),
         "C14" => gen_c14(rng, thorough, run_index),
         "C03" => gen_c03(rng, thorough),
         other => panic!("no world generator for {other}"),
+    };
+    add_symlinked_files(rng, &mut t);
+    t
+}
+
+/// In a third of the worlds one file per layout is in its directory only by way of a symbolic link
+/// to content kept elsewhere. Only variants that present every file once (directories only, or files
+/// only) get the link: a file argument is canonicalised and a directory entry is not, so naming a
+/// linked file directly *and* through its directory presents it under two names — whether those
+/// count as one file is not something the properties speak about.
+fn add_symlinked_files(rng: &mut Rng, t: &mut WorldTrace) {
+    // (not in C14: its twins are two different layouts of one text and must stay comparable line by line)
+    if t.prop == "C14" || t.mode.starts_with("boundary:") || !rng.chance(1, 3) {
+        return;
+    }
+    let mut layouts: Vec<(Vec<FileSpec>, String)> = vec![];
+    for v in t.variants.iter_mut() {
+        if v.files.is_empty() {
+            continue;
+        }
+        let chosen = match layouts.iter().find(|(l, _)| *l == v.files) {
+            Some((_, name)) => name.clone(),
+            None => {
+                let name = v.files[rng.below(v.files.len())].name.clone();
+                layouts.push((v.files.clone(), name.clone()));
+                name
+            }
+        };
+        let is_file_arg = |a: &String| v.files.iter().any(|f| a.ends_with(&f.name) && a.strip_suffix(f.name.as_str()).is_some_and(|p| p.ends_with('/')));
+        let nfile = v.args.iter().filter(|a| is_file_arg(a)).count();
+        let pure = nfile == 0 || nfile == v.args.len();
+        if pure {
+            if let Some(f) = v.files.iter_mut().find(|f| f.name == chosen) {
+                f.via_symlink = true;
+            }
+        }
     }
 }
 
